@@ -539,6 +539,9 @@ func (ex *Exec) load(addr Value, fr *frame) Value {
 		ex.goPanicf("invalid memory address or nil pointer dereference")
 	}
 	ex.raceRead(c.acc(), fr)
+	if c.Atomic {
+		ex.writes = append(ex.writes, writeRec{tag: "atomic-mixed", pos: fr.pos()})
+	}
 	return copyVal(c.V)
 }
 
@@ -554,6 +557,9 @@ func (ex *Exec) store(addr Value, v Value, fr *frame) {
 	}
 	if c.Own != nil {
 		ex.recordWrite(c.Own, fr)
+	}
+	if c.Atomic {
+		ex.writes = append(ex.writes, writeRec{tag: "atomic-mixed", pos: fr.pos()})
 	}
 	ex.raceWrite(c.acc(), fr)
 	storeInto(c, v)
